@@ -152,6 +152,23 @@ CLAIMED["C18"] = dict(
          "built-ins are assumed/executed; traceback tagging fixed off as the statement says.",
     design_ref="§5 C18", note="enc abstracts the KeyBuilder's byte stream.")
 
+CLAIMED["C03"] = dict(
+    technique="Lean 4: broadcasting fold = NumPy's rule for all shape lists (theorem) + kernel-checked (decide +kernel) dtype table "
+              "regenerated each run from live pytato and the installed NumPy + exhaustive/seeded constructor correspondence",
+    text="Proved (model): get_shape_after_broadcasting's per-axis fold equals NumPy's rule (incl. exactly when it fails) for every "
+         "list of shapes of any rank; slice normalisation/length = CPython's (shared with C02). Kernel-checked each run: all 9256 "
+         "rows (21 binary operators/functions x 13 dtypes^2 and x 10 Python/NumPy scalar kinds on both sides; 19 unary functions "
+         "x 13 dtypes) of the regenerated table agree wherever both pytato and NumPy accept, except the deviation categories "
+         "committed in known_findings.json. Tie: the table (translator); shape pairs with 0..3 axes of length 0..4 (6000 sampled "
+         "quick / all 24k thorough) and triples through the real operator vs the Lean model vs NumPy; every axis argument in "
+         "[-ndim-1, ndim+1] of roll/stack/concatenate/expand_dims/squeeze/sum/amax/int index, all permutations and bad "
+         "permutations, reshape targets incl. -1 and invalid, einsum/matmul validation: accept/reject + shape vs NumPy on "
+         "concrete operands, errors after construction flagged; every intermediate node of generated programs: declared "
+         "shape/dtype vs the reference evaluator. Partial: NumPy's promotion table is regenerated, not derived.",
+    design_ref="§5 C03",
+    note="Combinations NumPy rejects with a dtype TypeError (bitwise on floats, // % on complex) are outside the statement's "
+         "'shape, axis or index errors' (counted); what pytato rejects and NumPy accepts is allowed (counted).")
+
 NOT_YET = "check not built yet in this revision (see DESIGN.md §10 build order); not claimed"
 
 ALL = [f"C{n:02d}" for n in range(1, 21)]
